@@ -499,7 +499,10 @@ def _endpoint_from_socksport_line(reactor, socks_config):
         # XXX wait, can SOCKSPort lines with "unix:/path" still
         # include options afterwards? What about if the path has a
         # space in it?
-        return UNIXClientEndpoint(reactor, socks_config[5:])
+        # options (e.g. "WorldWritable") can follow the path; they are
+        # not part of it. (Paths with spaces need quoting in Tor and
+        # aren't supported here.)
+        return UNIXClientEndpoint(reactor, socks_config.split()[0][5:])
 
     # options like KeepAliveIsolateSOCKSAuth can be appended
     # to a SocksPort line...
